@@ -24,6 +24,7 @@ func exprStrSubst(v ssa.Value, o exprOpts, subst map[ssa.Value]string) string {
 	if r.o.depth == 0 {
 		r.o.depth = 14
 	}
+	r.markRoot(v)
 	return r.render(v, 0)
 }
 
